@@ -15,6 +15,9 @@ CLAIMED = {
  "C10": ("Coq theorem C10_no_panic: for every byte stream, session state and behaviour of the library oracles, the model of Write -> handleCommand -> protocol/base64/option parsing -> dispatch -> arity checks never reaches a Go panic (every index/slice/nil access is a checked operation in the model). Tied to the code by a decode-level comparison (real ServerHandler up to the command callback) and by a crash oracle: generated payloads are fed to real sessions in child processes, a dead process is a violation.",
          "partial: query parsing totality is C11's theorem; reader internals beyond the before-context bound, regexp and x/crypto are outside the model; resource exhaustion is out of scope",
          "Coq proof (case analysis with checked indexing) + crash oracle in child processes + decode-level differential check"),
+ "C11": ("Coq model of the whole query parser (tokenize, keyword detection, tokensConsume with back-quote stripping, every clause builder, the function stack, the post-checks) with checked indexing; theorem C11_total: NewQuery never panics for any text and any ParseFloat/Atoi behaviour; keyword case-insensitivity. Round trip (valid query in any surface variation -> denoted structure) and rejection of malformed families are decided by the correspondence check: random abstract queries rendered in random clause order / case / separators / quoting, their mutations and a malformed corpus, compared field by field with mapr.NewQuery, with an independent Python denotation as oracle.",
+         "partial: the unbounded round-trip theorem is not proved (exercised only); strconv is an oracle; Unicode white space / case folding outside ASCII is outside the model",
+         "Coq proof of totality (fuelled recursion, in-range slicing lemmas) + differential correspondence check with independent denotation oracle"),
  "C12": ("Coq theorem C12_roundtrip: for every pattern, flag, context values in Z, output modes, blank-free file path and every iteration order of the option map, the server's decoding (Write -> handleCommand -> option parsing -> dispatch -> regex.Deserialize) of the bytes the client sends yields exactly the requested read command; base64/strconv enter as hypotheses. Model tied to the code by running the real client constructors + SendMessage and the real ServerHandler.Write on hostile patterns and option values, including dmap's option-less first command.",
          "encoding/base64, strconv, regexp.Compile, mapr.NewQuery are oracles (hypotheses in the theorem, per-case tables in the correspondence check)",
          "Coq proof (split/join algebra over bytes, induction over option lists) + differential correspondence check"),
